@@ -1,9 +1,9 @@
 SPECIFICATION Spec
 CONSTANTS
-  Calls = {1, 2, 3}
-  Credit = 2
+  Calls = {1, 2, 3, 4}
+  Credit = 3
   MayLose = FALSE
-  Hangs = {1, 2}
-  Hostile = {}
+  Hangs = {}
+  Hostile = {1, 2}
 INVARIANT Invariants
 CHECK_DEADLOCK FALSE
